@@ -21,7 +21,7 @@ def run(rep, tier, seed, rng):
     # wide projects: many (builder, app) pairs with statement sets of very different sizes, so that any way of
     # splitting the pair list among worker threads (chunking, work stealing) would show in the order of the file
     from .. import directed
-    for nb, na in ((4, 16), (3, 24), (8, 9)) if tier == "quick" else ((4, 16), (3, 24), (8, 9), (6, 30), (2, 70)):
+    for nb, na in ((4, 16), (3, 24), (8, 9)) if tier == "quick" else ((4, 16), (3, 24), (8, 9), (6, 20), (2, 50)):
         mods = [{"name": "lib%d" % k, "sources": ["lib%d_%d.c" % (k, j) for j in range(1 + (k * 7) % 5)]} for k in range(6)]
         apps = [{"name": "app%02d" % a, "sources": ["a%02d_%d.c" % (a, j) for j in range(1 + (a * 5) % 17)],
                  "selects": ["lib%d" % ((a + j) % 6) for j in range(a % 4)]} for a in range(na)]
